@@ -110,7 +110,7 @@ def execute(scn, devs, bindir, scratch, expect=None):
             for fd in (tr, tw, cr, cw):
                 os.close(fd)
             tr, tw, cr, cw = hi
-            os.write(tw, b"t" * (n - 1))
+            os.write(tw, scn.get("token_byte", b"t") * (n - 1))      # GNU make writes '+'; any byte value is a token
             env["MAKEFLAGS"] = " -j --jobserver-auth=%d,%d --jobserver-fds=%d,%d" % (tr, tw, tr, tw)
             if scn.get("no_cheatfds"):
                 # a real GNU make parent: it knows nothing about redo's second pipe
